@@ -269,9 +269,33 @@ end Slicec.Gen
     return text, len(sites) + 1
 
 
+
+def gen_keywords(repo):
+    T = "Keywords"
+    rel = "slicec/src/parsers/slice/lexer.rs"
+    src = read(repo, rel, T)
+    body = fn_body(src, "check_if_keyword", T, rel)
+    m = re.search(r"match\s+identifier\s*", body)
+    if not m:
+        raise ExtractionError(T, rel, "`match identifier` not found in check_if_keyword")
+    arms = block_after(body, m.end())
+    kws = re.findall(r'"([A-Za-z0-9_]+)"\s*=>\s*TokenKind::(\w+)', arms)
+    if len(kws) < 10:
+        raise ExtractionError(T, rel, "keyword arms not understood")
+    n_arms = len(re.findall(r"=>", arms))
+    if n_arms != len(kws) + 1:
+        raise ExtractionError(T, rel, f"{n_arms} arms in check_if_keyword, {len(kws)} keyword arms + 1 default expected")
+    text = "-- GENERATED by translator/extract.py from slicec/src/parsers/slice/lexer.rs — do not edit.\nnamespace Slicec.Gen\n" \
+           "/-- `check_if_keyword`: spelling → token kind -/\n" \
+           "def sliceKeywords : List (String × String) := [" + ", ".join(f'("{k}", "{t}")' for k, t in kws) + "]\n" \
+           "end Slicec.Gen\n"
+    return text, len(kws)
+
+
 TABLES = {
     "VarintArms": gen_varint_arms,
     "CodecPanics": gen_codec_panics,
+    "Keywords": gen_keywords,
 }
 
 
